@@ -5,6 +5,8 @@ import Model.C16.Musig2
 import Model.C16.Dleq
 import Model.C16.SilentPayments
 import Model.C16.Pedersen
+import Model.C16.Ecies
+import Model.C16.EllSwift
 import Generated.Interactive
 open Btc Btc.Py Btc.C16
 
@@ -254,6 +256,65 @@ def silent : List String → Option String
     pure (rend toString (prvKeyFromTweak O (← parseInt? b) (← parseInt? t)))
   | _ => none
 
+/-! toy cipher shared with harness/c16.py (the real `encrypt_f` is the caller's): PKCS#7 to 16-byte
+blocks, then XOR with the repeated `key ‖ iv` -/
+def toyPad (m : Bytes) : Bytes :=
+  let k := 16 - m.length % 16
+  m ++ List.replicate k (UInt8.ofNat k)
+
+def toyXor (key iv : Bytes) (m : Bytes) : Bytes :=
+  let ks := key ++ iv
+  if ks.isEmpty then m else
+  (List.range m.length).zipWith (fun i b => b ^^^ ks.getD (i % ks.length) 0) m
+
+def toyEnc (key iv m : Bytes) : R Bytes := .ok (toyXor key iv (toyPad m))
+
+def toyDec (key iv c : Bytes) : R Bytes :=
+  let p := toyXor key iv c
+  match p.getLast? with
+  | none => .error .value
+  | some k =>
+    if k.toNat = 0 ∨ k.toNat > 16 ∨ k.toNat > p.length then .error .value
+    else if (p.drop (p.length - k.toNat)).all (· == k) then .ok (p.take (p.length - k.toNat))
+    else .error .value
+
+def eciesOps : List String → Option String
+  | ["ecies.encrypt", msg, px, py, q, magic] => do
+    let P ← point2? px py
+    let msg ← fromHex? msg
+    let q ← parseInt? q
+    let magic ← fromHex? magic
+    pure (if !(vp P) then "err value" else
+      rend toHex (eciesEncrypt O sha512 hmacSha256 toyEnc msg P q magic))
+  | ["ecies.decrypt", env, d, magic] => do
+    pure (rend toHex (eciesDecrypt O sha512 hmacSha256 toyDec (← fromHex? env) (← parseInt? d) (← fromHex? magic)))
+  | _ => none
+
+def swiftParams? (c : String) : Option Swift.Params := do
+  let c ← EC.curveOfToken c
+  if c.a ≠ 0 then none else Swift.params c.p c.b
+
+def swiftOps : List String → Option String
+  | ["ell.xswiftec", c, u, t] => do
+    let u ← parseInt? u
+    let t ← parseInt? t
+    pure (match swiftParams? c with
+      | none => "err value"
+      | some P => match Swift.xswiftec P u t with
+        | some x => s!"ok {x}"
+        | none => "err runtime")
+  | ["ell.xswiftec_inv", c, x, u, case] => do
+    let x ← parseInt? x
+    let u ← parseInt? u
+    let case ← case.toNat?
+    pure (match swiftParams? c with
+      | none => "err value"
+      | some P => match Swift.xswiftecInv P x u case with
+        | some (some t) => s!"ok {t}"
+        | some none => "ok None"
+        | none => "err value")
+  | _ => none
+
 end C16Drv
 
 def handle (toks : List String) : String :=
@@ -272,6 +333,8 @@ def handle (toks : List String) : String :=
           else if t.startsWith "dh." || t.startsWith "kdf." || t.startsWith "dleq." then
             (C16Drv.twoParty toks).getD "bad-op"
           else if t.startsWith "sp." || t.startsWith "pedersen." || t.startsWith "psbt." then (C16Drv.silent toks).getD "bad-op"
+          else if t.startsWith "ell." then (C16Drv.swiftOps toks).getD "bad-op"
+          else if t.startsWith "ecies." then (C16Drv.eciesOps toks).getD "bad-op"
           else "bad-op"
         | [] => "bad-op"
 
